@@ -80,9 +80,12 @@ def interner : P Verdict := do
 
 def optTy (o : Option (Ty Nat)) : String := Show.opt Show.ty o
 
-def builderOps : Nat → Nat → Builder → List (Ty Nat) → Bool → P Verdict
-  | 0, _, _, _, nt => pure (.ok nt)
-  | n + 1, k, b, spec, nt => do
+/-- the builder history against the duplicate-free list (C12) and, at every `finish`, against C01: all failing clauses of a history
+    are collected (a wrong answer early on does not hide what `finish` then hands out); the list and the model are advanced by
+    their own answers, so the clauses after a first deviation still compare like with like -/
+def builderOps : Nat → Nat → Builder → List (Ty Nat) → Bool → List String → P Verdict
+  | 0, _, _, _, nt, errs => pure (if errs.isEmpty then .ok nt else .specfail (" ;; ".intercalate errs.eraseDups))
+  | n + 1, k, b, spec, nt, errs => do
     let op ← P.tok
     match op with
     | "reg" => do
@@ -90,34 +93,37 @@ def builderOps : Nat → Nat → Builder → List (Ty Nat) → Bool → P Verdic
       let id ← P.nat
       let m := b.registerType t
       let s := DL.intern spec t
-      if s.2.1 != id then pure (.specfail s!"op {k}: register_type: duplicate-free list gives {s.2.1}, impl {id}")
+      if s.2.1 != id then
+        builderOps n (k + 1) m.2 s.2.2 (nt || !s.1) (errs ++ [s!"op {k}: register_type: duplicate-free list gives {s.2.1}, impl {id}"])
       else if m.1 != id then pure (.diff s!"op {k}: register_type: model {m.1} impl {id}")
-      else builderOps n (k + 1) m.2 s.2.2 (nt || !s.1)
+      else builderOps n (k + 1) m.2 s.2.2 (nt || !s.1) errs
     | "next" => do
       let id ← P.nat
-      if spec.length != id then pure (.specfail s!"op {k}: next_type_id: list length {spec.length}, impl {id}")
+      if spec.length != id then builderOps n (k + 1) b spec nt (errs ++ [s!"op {k}: next_type_id: list length {spec.length}, impl {id}"])
       else if b.nextTypeId != id then pure (.diff s!"op {k}: next_type_id: model {b.nextTypeId} impl {id}")
-      else builderOps n (k + 1) b spec nt
+      else builderOps n (k + 1) b spec nt errs
     | "get" => do
       let i ← P.nat
       let r ← P.opt P.ty
-      if spec[i]? != r then pure (.specfail s!"op {k}: get {i}: list gives {optTy spec[i]?}, impl {optTy r}")
+      if spec[i]? != r then builderOps n (k + 1) b spec nt (errs ++ [s!"op {k}: get {i}: list gives {optTy spec[i]?}, impl {optTy r}"])
       else if b.get i != r then pure (.diff s!"op {k}: get {i}: model {optTy (b.get i)} impl {optTy r}")
-      else builderOps n (k + 1) b spec nt
+      else builderOps n (k + 1) b spec nt errs
     | "fin" => do
       let reg ← P.registry
-      if reg.map (·.ty) != spec then pure (.specfail s!"op {k}: finish: does not list the values at their indices")
-      else if !Spec.dense reg then pure (.specfail s!"op {k}: finish: C01 dense: some entry has id != index")
-      else if spec.all (fun t => t.refs.all (· < spec.length)) && !Spec.wf reg then
-        pure (.specfail s!"op {k}: finish: C01 closed: all registered references are below next_type_id but the registry is not closed")
-      else if b.finish != reg then pure (.diff s!"op {k}: finish: model {Show.registry b.finish} impl {Show.registry reg}")
-      else builderOps n (k + 1) b spec nt
+      let mut e : List String := []
+      if reg.map (·.ty) != spec then e := e ++ [s!"op {k}: finish: does not list the values at their indices"]
+      if !Spec.dense reg then e := e ++ [s!"op {k}: finish: C01 dense: some entry has id != index"]
+      -- the caller kept to the protocol of the list model: every reference it registered is below the number of distinct values
+      if spec.all (fun t => t.refs.all (· < spec.length)) && !Spec.wf reg then
+        e := e ++ [s!"op {k}: finish: C01 closed: all registered references are below next_type_id but the registry is not closed"]
+      if e.isEmpty && errs.isEmpty && b.finish != reg then pure (.diff s!"op {k}: finish: model {Show.registry b.finish} impl {Show.registry reg}")
+      else builderOps n (k + 1) b spec nt (errs ++ e)
     | _ => P.fail
 
 def builder : P Verdict := do
   let _closed ← P.bool
   let n ← P.nat
-  builderOps n 0 Builder.new [] false
+  builderOps n 0 Builder.new [] false []
 
 /-! ### path -/
 
